@@ -441,7 +441,7 @@ def check_expressions(ck, gvh, oracle, tier, st):
                         cases.append({"kind": "corpus", "sx": l})
     for kind, t in enum_pairs():
         cases.append({"kind": kind, "tree": t})
-    nrand = 6000 if tier == "quick" else 120000
+    nrand = 4000 if tier == "quick" else 120000
     for i in range(nrand):
         spell = (i % 3 != 0)
         t = gen_exp(rng, 2 + rng.below(4), spell)
@@ -452,7 +452,7 @@ def check_expressions(ck, gvh, oracle, tier, st):
             cases.append({"kind": "flat-pair", "toks": ["name:0", BINTOK[o1], "name:1", BINTOK[o2], "name:2"]})
             for u in UNOPS:
                 cases.append({"kind": "flat-pair-un", "toks": [UNTOK[u], "name:0", BINTOK[o1], UNTOK[u], "name:1", BINTOK[o2], "name:2"]})
-    nflat = 3000 if tier == "quick" else 60000
+    nflat = 2000 if tier == "quick" else 60000
     for i in range(nflat):
         cases.append({"kind": "flat-random", "toks": gen_flat(rng, 1 + rng.below(6))})
 
@@ -566,7 +566,7 @@ CORRUPT_TOKENS = [")", "(", "]", "}", "*", "..", "=", ",", "and", "then", "end",
 def check_errors(ck, gvh, oracle, tier, st):
     """(d) single-token corruptions of valid expressions: the reported line is the line of the offending token."""
     rng = ck.rng.fork()
-    n = 3000 if tier == "quick" else 40000
+    n = 2000 if tier == "quick" else 40000
     trees = [gen_exp(rng, 2 + rng.below(3), True) for _ in range(n)]
     rl = ["c%d R %s" % (i, sx(t)) for i, t in enumerate(trees)]
     rc, rout, rerr = vlib.run_lines(oracle, [], rl, timeout=1800)
@@ -668,7 +668,7 @@ def replay(path, seed):
         print("source  :", repr(r.get("source")))
         print("impl    :", out[0] if out else None)
         print("expected:", r.get("expected_ast") or r.get("expected"))
-        if mode == "exp" and out and " | " in out[0]:
+        if mode == "exp" and out and " @@ " in out[0]:
             gt = [go_tok_to_model(t) for t in out[0].split(" @@ ")[1].split(" ") if t]
             if all(t[0] for t in gt) and gt[-1][0] == "eof":
                 _, b, _ = vlib.run_lines(oracle, [], ["r P " + " ".join(t[0] for t in gt[:-1])])
